@@ -24,6 +24,9 @@ def gen(rng, tier):
     if cyclic:
         net = G.gen_net(rng, n_inputs=(1, 3), n_gates=(2, 8), types=G.swarm_types(rng), max_arity=rng.randint(2, 4),
                         constants=0.2, bbs=0, cyclic=True, name_style=style, parity_bias=0.3 if parity else 0.0)
+    elif tier == "thorough" and rng.random() < 0.3:
+        net = G.gen_net(rng, n_inputs=(4, 8), n_gates=(8, 13), types=G.swarm_types(rng), max_arity=rng.randint(2, 7),
+                        constants=0.3, bbs=0, name_style=style, parity_bias=0.4 if parity else 0.0)
     else:
         net = G.gen_net(rng, n_inputs=(1, 5), n_gates=(1, 12), types=G.swarm_types(rng), max_arity=rng.randint(2, 6),
                         constants=0.3, bbs=rng.choice((0, 0, 1, 2)), name_style=style,
